@@ -552,3 +552,139 @@ func ruleENTRYTAIL(c *Ctx, r *Report) {
 		}
 	}
 }
+
+// CTOR-SHAPE (C03/C06): the general constructor's operator-specific branches.
+func ruleCTORSHAPE(c *Ctx, r *Report) {
+	const rule = "CTOR-SHAPE"
+	r.doc(rule, "in the general constructor: the operator is rewritten to Like only under op == Equals with a Wild/Regexp right operand; a RangeBoundary takes Min from the first, Max from the second and Inclusive from the third extra operand; the chained-literal recogniser used for value lists descends through Or nodes only and accepts Literal leaves only")
+	general := c.pkgFunc(pkgExpr, "Expr")
+	if general == nil {
+		r.bad(rule, "anchor", "-", "expr.Expr not found")
+		return
+	}
+	et := c.namedType(pkgExpr, "Expression")
+	st := et.Underlying().(*types.Struct)
+	var opF *types.Var
+	for i := 0; i < st.NumFields(); i++ {
+		if st.Field(i).Name() == "Op" {
+			opF = st.Field(i)
+		}
+	}
+	nOp := 0
+	for _, fs := range c.storesToFields(opF) {
+		if fs.fn != general {
+			continue
+		}
+		v := c.resolve(fs.st.Val, nil)
+		if _, isParam := v.(*ssa.Parameter); isParam {
+			continue
+		}
+		nOp++
+		k, isC := v.(*ssa.Const)
+		key := "op-rewrite|" + c.key(v, nil)
+		if !isC || c.constName(k) != "expr.Like" {
+			r.bad(rule, key, c.instrPos(fs.st), "the constructor rewrites the operator to "+c.key(v, nil)+"; the only documented rewrite is Equals → Like for pattern operands")
+			continue
+		}
+		at := c.expand(c.domAtoms(fs.st.Block()), nil)
+		eq, pat := false, false
+		for _, a := range at {
+			if a.Kind == "cmp" && a.Subj == "$1" && a.Op == "==" && a.Val == "expr.Equals" {
+				eq = true
+			}
+		}
+		ops := c.possibleOps(at, "$2[0].(*expr.Expression).Op")
+		pat = subsetOf(ops, []string{"expr.Wild", "expr.Regexp"})
+		if !pat {
+			// through the helper's DNF
+			for _, a := range c.domAtoms(fs.st.Block()) {
+				if a.Kind == "call" && a.Pos && a.Fn != nil && a.Val == "$2[0]" {
+					s := c.boolSummaryOf(a.Fn)
+					okAll := s.ok && len(s.TrueSets) > 0
+					for _, set := range s.TrueSets {
+						if !subsetOf(c.possibleOps(set, "$0.(*expr.Expression).Op"), []string{"expr.Wild", "expr.Regexp"}) {
+							okAll = false
+						}
+					}
+					if okAll {
+						pat = true
+					}
+				}
+			}
+		}
+		if eq && pat {
+			r.ok(rule, key, c.instrPos(fs.st), "Equals with a Wild/Regexp operand becomes Like")
+		} else {
+			r.bad(rule, key, c.instrPos(fs.st), fmt.Sprintf("the Equals → Like rewrite is not confined to op == Equals (%v) with a Wild/Regexp right operand (%v): other comparisons or plain values would be rendered as pattern matches", eq, pat))
+		}
+	}
+	r.floor(rule, "operator rewrites in the constructor", nOp, 1)
+	// RangeBoundary fields
+	rb := c.namedType(pkgExpr, "RangeBoundary")
+	rst := rb.Underlying().(*types.Struct)
+	want := map[string]string{"Min": "$2[0]", "Max": "$2[1]", "Inclusive": "$2[2]"}
+	seen := 0
+	for i := 0; i < rst.NumFields(); i++ {
+		f := rst.Field(i)
+		for _, fs := range c.storesToFields(f) {
+			if fs.fn != general {
+				continue
+			}
+			seen++
+			k := c.key(fs.st.Val, nil)
+			key := "range-boundary|" + f.Name()
+			if strings.Contains(k, want[f.Name()]) && !strings.Contains(strings.ReplaceAll(k, want[f.Name()], ""), "$2[") {
+				r.ok(rule, key, c.instrPos(fs.st), k)
+			} else {
+				r.bad(rule, key, c.instrPos(fs.st), fmt.Sprintf("RangeBoundary.%s is built from %s; it must come from the operand %s (lower bound, upper bound, inclusive flag in that order)", f.Name(), k, want[f.Name()]))
+			}
+		}
+	}
+	r.floor(rule, "RangeBoundary field stores in the constructor", seen, 3)
+	// the chained-literal recogniser (role: function returning ([]*Expression, bool) called by the
+	// production that builds In nodes)
+	var rec *ssa.Function
+	for _, f := range c.Funcs {
+		if fnPkgPath(f) == pkgReduce && f.Signature.Results().Len() == 2 && f.Signature.Params().Len() == 1 && isExprPtr(f.Signature.Params().At(0).Type()) && isBool(f.Signature.Results().At(1).Type()) {
+			rec = f
+		}
+	}
+	if rec == nil {
+		r.bad(rule, "list-recogniser", "-", "chained-literal recogniser not found in package reduce")
+		return
+	}
+	nRec := 0
+	for _, b := range rec.Blocks {
+		for _, in := range b.Instrs {
+			call, ok := in.(*ssa.Call)
+			if !ok || call.Call.StaticCallee() != rec {
+				continue
+			}
+			nRec++
+			ops := c.possibleOps(c.domAtoms(b), "$0.Op")
+			key := "list-recogniser|descend|" + c.key(call.Call.Args[0], nil)
+			if subsetOf(ops, []string{"expr.Or"}) {
+				r.ok(rule, key, c.instrPos(in), "descends through Or only")
+			} else {
+				r.bad(rule, key, c.instrPos(in), fmt.Sprintf("the value-list recogniser descends into nodes of kind %v: only a chain of ORs of plain values is a value list (an AND chain would be turned into IN (…), which has OR meaning)", setKeys(ops)))
+			}
+		}
+	}
+	paths, _ := c.enumPaths(rec, 2000)
+	for _, p := range paths {
+		if p.Ret == nil || len(p.Ret.Results) != 2 {
+			continue
+		}
+		if b, ok := constBoolVal(c.resolve(p.Ret.Results[1], p.Env)); !ok || !b {
+			continue
+		}
+		// a base case: returns [in] with true
+		ops := c.possibleOps(p.Atoms, "$0.Op")
+		if subsetOf(ops, []string{"expr.Literal"}) {
+			r.ok(rule, "list-recogniser|base", c.instrPos(p.Ret), "only Literal leaves are list values")
+		} else {
+			r.bad(rule, "list-recogniser|base", c.instrPos(p.Ret), fmt.Sprintf("the value-list recogniser accepts nodes of kind %v as list values; only plain Literal leaves are (patterns need LIKE, sub-expressions are not values)", setKeys(ops)))
+		}
+	}
+	r.floor(rule, "recursive descents of the list recogniser", nRec, 2)
+}
